@@ -231,3 +231,22 @@ class Verdict:
             print("VIOLATION property=%s replay=%s" % (self.pid, path))
             log("  signature: %s\n  what: %s" % (sig, what))
         return 1
+
+
+def apalache(module, cinit, init, inv, length, name, timeout=1800):
+    """apalache-mc check; returns dict(ok, violated, out, wall)."""
+    out_dir = os.path.join(OUT, "apalache", name)
+    shutil.rmtree(out_dir, ignore_errors=True)
+    os.makedirs(out_dir, exist_ok=True)
+    cmd = ["apalache-mc", "check", "--out-dir=" + out_dir, "--cinit=" + cinit, "--init=" + init, "--inv=" + inv, "--length=%d" % length,
+           os.path.join(SPEC, module)]
+    t0 = time.time()
+    try:
+        p = subprocess.run(cmd, cwd=out_dir, stdout=subprocess.PIPE, stderr=subprocess.STDOUT, text=True, timeout=timeout)
+    except subprocess.TimeoutExpired:
+        raise ToolError("apalache timed out on %s (%s)" % (module, name))
+    out = p.stdout
+    ok = "The outcome is: NoError" in out
+    violated = "invariant" in out and "violated" in out
+    shutil.rmtree(out_dir, ignore_errors=True)
+    return {"ok": ok, "violated": violated, "out": out, "wall": time.time() - t0}
